@@ -84,7 +84,9 @@ CHECKS = {'C01': {'level': 'exploration',
                  'round 8 generated transactions may end by obtaining typed column accessors that they only read (txn.Int64(name).Get(): an update '
                  'buffer that stays empty) | since round 9 one generated transaction in sixteen has an empty body (no effect, nothing emitted) | one '
                  'generated transaction in six without DeleteAt steps starts by narrowing its selection to nothing (WithValue(col, never) and Count) '
-                 'before its point and key operations, which are independent of the selection',
+                 'before its point and key operations, which are independent of the selection | since round 10 the concurrent programs write one '
+                 'store in four through column accessors at the cursor (txn.X(col).Set/Merge) and one committing transaction in four ends by '
+                 'obtaining an accessor that it only reads',
          'assumptions': ['in-flight observation happens from the same goroutine between two steps of the body (no latch is held there)',
                          'generator exclusions driven by known findings are counted in coverage.excluded_by_known_finding'],
          'tests': [{'run': '^TestC02$',
@@ -233,7 +235,9 @@ CHECKS = {'C01': {'level': 'exploration',
                  'and repeats the emitted commits and the DDL steps in the order in which they happened must equal the model (rows, every live '
                  'column, Count) | since round 9 one generated transaction in sixteen has an empty body (no effect, nothing emitted) | one generated '
                  'transaction in six without DeleteAt steps starts by narrowing its selection to nothing (WithValue(col, never) and Count) before '
-                 'its point and key operations, which are independent of the selection',
+                 'its point and key operations, which are independent of the selection | since round 10 the concurrent programs write one store in '
+                 'four through column accessors at the cursor (txn.X(col).Set/Merge) and one committing transaction in four ends by obtaining an '
+                 'accessor that it only reads',
          'assumptions': ['the replica has the same schema (columns created at the same history points) and the same index definitions',
                          'comparison happens when the primary is quiescent'],
          'tests': [{'run': '^TestC06$',
@@ -320,7 +324,9 @@ CHECKS = {'C01': {'level': 'exploration',
                  'BEGUN before Snapshot returned (a commit reaches the snapshot recorder before the recording logger, so its own logical time may be '
                  'later than the return); not bit-reproducible | since round 5 the concurrent programs (controlled and free-parallel) contain '
                  'transactions that return an error after their last step (one in six; in "abort-heavy" free-parallel programs every second one, '
-                 'with mostly inserts): nothing of them may apply, be emitted or stay reserved',
+                 'with mostly inserts): nothing of them may apply, be emitted or stay reserved | since round 10 the concurrent programs write one '
+                 'store in four through column accessors at the cursor (txn.X(col).Set/Merge) and one committing transaction in four ends by '
+                 'obtaining an accessor that it only reads',
          'assumptions': ['controlled-schedule parts: context switches only at the verif yield points; free-parallel part: whatever the Go scheduler '
                          'produces on 16 cores',
                          'writers do not insert while known finding f10 (in-flight reservations visible to snapshots) is active - counted'],
@@ -358,7 +364,9 @@ CHECKS = {'C01': {'level': 'exploration',
                  'bit-reproducible | since round 5 the concurrent programs (controlled and free-parallel) contain transactions that return an error '
                  'after their last step (one in six; in "abort-heavy" free-parallel programs every second one, with mostly inserts): nothing of them '
                  'may apply, be emitted or stay reserved | since round 5 the free-parallel part also extends the time-to-live of the contended rows '
-                 'with txn.TTL().Extend (a merge into the deadline): final deadline = initial deadline + every committed extension',
+                 'with txn.TTL().Extend (a merge into the deadline): final deadline = initial deadline + every committed extension | since round 10 '
+                 'the concurrent programs write one store in four through column accessors at the cursor (txn.X(col).Set/Merge) and one committing '
+                 'transaction in four ends by obtaining an accessor that it only reads',
          'assumptions': ["context switches happen only at the verif yield points and body yields (windows inside one buffer's apply loop are reached "
                          'only by the free-parallel part)',
                          'shared rows are never deleted by the generated programs (so the fold is well defined)'],
@@ -450,7 +458,9 @@ CHECKS = {'C01': {'level': 'exploration',
                  'looked at through that index | since round 8 generated transactions may end by obtaining typed column accessors that they only '
                  'read (txn.Int64(name).Get(): an update buffer that stays empty) | since round 9 one generated transaction in sixteen has an empty '
                  'body (no effect, nothing emitted) | one generated transaction in six without DeleteAt steps starts by narrowing its selection to '
-                 'nothing (WithValue(col, never) and Count) before its point and key operations, which are independent of the selection',
+                 'nothing (WithValue(col, never) and Count) before its point and key operations, which are independent of the selection | since '
+                 'round 10 the concurrent programs write one store in four through column accessors at the cursor (txn.X(col).Set/Merge) and one '
+                 'committing transaction in four ends by obtaining an accessor that it only reads',
          'assumptions': ['free-parallel runs are not bit-reproducible: the replay re-runs the generated program (schedule left to the Go runtime)'],
          'tests': [{'run': '^TestC11$',
                     'checks': {'quick': 200, 'thorough': 2000},
@@ -639,7 +649,9 @@ CHECKS = {'C01': {'level': 'exploration',
                  'DeleteAt steps starts by narrowing its selection to nothing (WithValue(col, never) and Count) before its point and key operations, '
                  'which are independent of the selection | since round 9 half of the sequential histories run with a logger that REFUSES every 2nd '
                  'or 3rd commit (it records the commit, then returns an error: an anonymous one, os.ErrClosed, io.ErrShortWrite, ENOSPC, ... in '
-                 'rotation); the collection must keep offering it every later commit, also the other blocks of the same transaction',
+                 'rotation); the collection must keep offering it every later commit, also the other blocks of the same transaction | since round 10 '
+                 'the concurrent programs write one store in four through column accessors at the cursor (txn.X(col).Set/Merge) and one committing '
+                 'transaction in four ends by obtaining an accessor that it only reads',
          'assumptions': ['record order at the logger is apply order (Append is called under the block latch)'],
          'tests': [{'run': '^TestC15$',
                     'checks': {'quick': 250, 'thorough': 2500},
